@@ -70,9 +70,15 @@ def random_scenario(rng, idx, allow_zero=True):
                 length = 1
             sends.append(dict(side=side, length=length, at=rng.choice([-1, -1, 0, 1, 2, 5, 10, 30, 80, 200])))
     rng.shuffle(sends)
-    return dict(id='rnd-%d' % idx, seed=rng.randrange(1 << 30), policy=policy, capacity=capacity,
-                cfg_a=dict(segment_size_tx_initial=seg_a, segment_size_mru=mru_a),
-                cfg_b=dict(segment_size_tx_initial=seg_b, segment_size_mru=mru_b), sends=sends)
+    scn = dict(id='rnd-%d' % idx, seed=rng.randrange(1 << 30), policy=policy, capacity=capacity,
+               cfg_a=dict(segment_size_tx_initial=seg_a, segment_size_mru=mru_a),
+               cfg_b=dict(segment_size_tx_initial=seg_b, segment_size_mru=mru_b), sends=sends)
+    if rng.random() < 0.2:
+        # adaptive segment size on one or both sides; needs a non-zero acknowledgement delay (the controller divides by it)
+        for key in rng.choice([('cfg_a',), ('cfg_b',), ('cfg_a', 'cfg_b')]):
+            scn[key]['modulate_target_ack_time'] = rng.choice([1, 2, 10])
+        scn['latency_ns'] = 1000000
+    return scn
 
 
 def execute(scn, max_steps=400000, actions=None, on_step=None, on_create=None):
@@ -82,6 +88,8 @@ def execute(scn, max_steps=400000, actions=None, on_step=None, on_create=None):
     '''
     run = PairRun(seed=scn['seed'], policy=scn['policy'], cfg_a=scn.get('cfg_a'), cfg_b=scn.get('cfg_b'),
                   capacity=scn.get('capacity'))
+    if scn.get('latency_ns'):
+        run.sim.deliver_latency_ns = scn['latency_ns']
     if on_create is not None:
         on_create(run)
     counters = {'A': 0, 'B': 0}
